@@ -2902,7 +2902,13 @@ class LinearOperator(object):
                 if _is_tensor_index_moved_to_start(orig_indices):
                     res = res.view(*tensor_index_shape, *res.shape[1:])
                 else:
-                    res = res.view(*res.shape[:-1], *tensor_index_shape)
+                    # the (flattened) tensor-index dim sits after the slices that precede the first tensor index
+                    tensor_dim = 0
+                    for idx in orig_indices:
+                        if torch.is_tensor(idx):
+                            break
+                        tensor_dim += isinstance(idx, slice)
+                    res = res.view(*res.shape[:tensor_dim], *tensor_index_shape, *res.shape[tensor_dim + 1 :])
         else:
             res = self._getitem(row_index, col_index, *batch_indices)
 
